@@ -116,7 +116,9 @@ def verify_function(key: str, contracts: dict, *, tier="quick", only_clauses=Non
     c = contracts[key]
     rep = FunctionReport(key)
     if c.get("list_bound") is not None:
-        rep.bounded = f"bounded-symbolic: every list (arguments, lists returned by callee contracts) has length <= {c['list_bound']}; contents fully symbolic"
+        rep.bounded = c.get("bounded_note") or f"bounded-symbolic: every list (arguments, lists returned by callee contracts) has length <= {c['list_bound']}; contents fully symbolic"
+    elif c.get("bounded_note"):
+        rep.bounded = c["bounded_note"]  # a stated bound on the inputs (e.g. string length): counted as bounded, never as proved
     t0 = time.time()
     mod, qual = _split_key(key)
     scale = float(os.environ.get("PYVC_TIMEOUT_SCALE", "1") or 1)  # second-chance pass of check.py
